@@ -15,7 +15,7 @@ class Rec:
     __slots__ = ('nodes', 'gate_pass', 'gate_hit', 'state0', 'foreign', 'foreign_kinds', 'effects', 'kinds',
                  'kill_at', 'killed', 'depth', 'max_depth', 'in_lambda', 'lambda_nodes', 'builtin_calls',
                  'mutator_calls', 'value_hooks', 'builtin_hooks', 'lambdas', 'findings', 'log_effects',
-                 'scoped', 'bdepth', 'hof_depth', 'nodes_in_hof', 'track_kinds', 'pre_builtin_hooks', 'scope_depth0', 'tainted')
+                 'scoped', 'bdepth', 'hof_depth', 'nodes_in_hof', 'track_kinds', 'pre_builtin_hooks', 'scope_depth0', 'tainted', 'recursion_seen')
 
     def __init__(self):
         self.nodes = 0
@@ -30,6 +30,7 @@ class Rec:
         self.killed = False
         self.depth = 0
         self.max_depth = 0
+        self.recursion_seen = False
         self.in_lambda = 0
         self.lambda_nodes = 0
         self.builtin_calls = collections.Counter()
@@ -107,6 +108,9 @@ def _wrap_node(cls, orig, is_lambda):
             rec.max_depth = rec.depth
         try:
             v = orig(self, state)
+        except RecursionError:
+            rec.recursion_seen = True       # where the interpreter stack ends is not a property of the library
+            raise
         finally:
             rec.depth -= 1
         if is_lambda and callable(v):
